@@ -149,7 +149,7 @@ def child_main(gfile, outfile, pklfile):
     b = build(g)
     try:
         p, desc = describe_processor(b)
-    except (ValueError, RuntimeError):
+    except Exception:       # as in drive_process: whether a processor can be built at all is C01's business
         p, desc = None, {'dvs': [], 'map': []}
     with open(pklfile, 'wb') as fh:
         pickle.dump({'dsg': b.dsg, 'proc': p}, fh)
